@@ -12,7 +12,7 @@ RULE = ("binaries: the 'symbols' seed (versioned, aliased, weak, TLS, common sym
         "(every 5th offset in quick). Each mutant is read by abidw, abidw --load-all-types, abidiff (mutant, original), abisym for a present and for an absent symbol name. Oracle: the process ends by exit - no signal, no assertion abort, "
         "no sanitizer report, no time-out; crashes whose innermost non-runtime frame is in elfutils are tallied as third-party. Non-trivial: every mutant.")
 TEXT = ("Deviation bound 1 (one corrupted field or byte): quick = the catalogue on 2 binaries on the plain build; thorough = the full catalogue on 5 binaries on the plain build (aborts, signals, hangs), "
-        "then ASan+UBSan on the full catalogue of the main binary and on every second DWARF byte / the symbol-lookup subset of the others.")
+        "then ASan+UBSan on a reduced catalogue (main binary with every second DWARF byte, the symbol-lookup classes of the SysV-hash binary, the symbol / hash classes and every fourth DWARF byte of the C++ binary).")
 NOTE = ("The plain build sees signals, aborts and hangs but not silent out-of-bounds reads; those are only covered by the ASan+UBSan stage of the thorough tier. Pairs of corruptions are not explored.")
 ASSUMPTIONS = ["single-field corruptions of compiler-produced binaries are representative of malformed ELF input"]
 _bins = {}
@@ -62,15 +62,27 @@ def _muts(ctx, b):
 
 
 def _asan_subset(b, muts):
-    """Indices of the catalogue that the (5x slower) ASan+UBSan pass of the thorough tier repeats."""
+    """Indices of the catalogue that the (much slower) ASan+UBSan pass of the thorough tier repeats: the main binary with every
+    second DWARF byte, the SysV-hash binary's symbol-lookup classes, the C++ binary's symbol / hash classes and every 4th DWARF byte."""
     out = []
     k = 0
     for i, m in enumerate(muts):
-        if m[0].startswith("dwarf-byte"):
+        dw = m[0].startswith("dwarf-byte")
+        if dw:
             k += 1
-            if b != "symbols-so" and k % 2:
+        if b == "symbols-so":
+            if dw and k % 2:
                 continue
-        elif b in ("symbols-sysv-so", "symbols-dw4-so") and not (m[0].startswith(("sysv-hash", "sym-dynsym", "versym", "verdef", "verneed")) or m[0].endswith(("-hash", "-symtab", "-version"))):
+        elif b == "symbols-sysv-so":
+            if not (m[0].startswith(("sysv-hash", "sym-dynsym", "versym", "verdef", "verneed")) or m[0].endswith(("-hash", "-version"))):
+                continue
+        elif b == "cxx_anon-so":
+            if dw:
+                if k % 4:
+                    continue
+            elif not m[0].startswith(("sym-", "gnu-hash")):
+                continue
+        else:
             continue
         out.append(i)
     return out
@@ -101,7 +113,7 @@ def _run_all(ctx, e, u, op, site, fails, outs):
     if e["bin"] == "symbols-sysv-so" and ctx.quick:
         runs = runs[3:] + [("abisym", [up, "base_fn"])]
     for tool, args in runs:
-        rc, out, err = toolrun.run_tool(ctx, v, tool, args, timeout=4, fast=True)
+        rc, out, err = toolrun.run_tool(ctx, v, tool, args, timeout=4 if v == "plain" else 15, fast=True)
         c = toolrun.classify(rc, err)
         if c is None:
             outs["exit"] = outs.get("exit", 0) + 1
